@@ -287,6 +287,16 @@ func runC01(c *explore.Ctx) {
 			}
 		}
 	}
+	// ZOO-BUILT: the (first) input batch of every ZOO member, as a built segment
+	for zi, mk := range zooMakers() {
+		if mk.first == nil || mk.heavy {
+			continue
+		}
+		if c.MineIdx("ZOO-BUILT", int64(zi)) && !c.Expired() {
+			b := mk.first()
+			checkBuiltLarge(c, "ZOO-BUILT", int64(zi), b, 1025, "ZOO-BUILT "+mk.name)
+		}
+	}
 	// HUGE: 66 000 documents - document numbers cross 65 536 (roaring container boundary)
 	for hi, p := range []int{0, 1} {
 		if c.MineIdx("HUGE", int64(hi)) && !c.Expired() {
